@@ -118,20 +118,34 @@ fn run_c17(line: &str) -> String {
         let mdl = args[1].as_string()?;
         let ps = props(&args[2])?;
         let mut map = emit::level::MinLevelPathMap::new();
+        // second construction path: the bulk constructor `min_by_path_filter` / `FromIterator` (the default
+        // minimum is the root of the trie, so when it is set relative to the paths is immaterial)
+        let mut bulk: Vec<(emit::Path<'static>, emit::level::MinLevelFilter)> = Vec::new();
+        let mut last_default = None;
         for r in regs {
             let (t, a) = r.as_tagged()?;
             match (t, a.len()) {
                 ("d", 2) => {
                     map.default_min_level(min_filter(&a[0], &a[1])?);
+                    last_default = Some(min_filter(&a[0], &a[1])?);
                 }
                 ("p", 3) => {
                     let path = a[0].as_string()?;
-                    map.min_level(emit::Path::new_owned_raw(path), min_filter(&a[1], &a[2])?);
+                    map.min_level(emit::Path::new_owned_raw(path.clone()), min_filter(&a[1], &a[2])?);
+                    bulk.push((emit::Path::new_owned_raw(path), min_filter(&a[1], &a[2])?));
                 }
                 _ => return None,
             }
         }
+        let mut map2 = emit::level::min_by_path_filter(bulk);
+        if let Some(d) = last_default {
+            map2.default_min_level(d);
+        }
         let r = with_event(&mdl, &ps, |evt| map.matches(&evt));
+        let rb = with_event(&mdl, &ps, |evt| map2.matches(&evt));
+        if rb != r {
+            return Some(format!("{}\tFAIL:min_by_path_filter-differs-from-min_level-calls({})", r, rb));
+        }
         // the type-erased path must agree with the generic one (C01 clause, observed here for free)
         let erased: &dyn emit::filter::ErasedFilter = &map;
         let r2 = with_event(&mdl, &ps, |evt| erased.matches(&evt));
@@ -185,7 +199,7 @@ fn run_parse(line: &str) -> String {
 // ------------------------------------------------------------------ generators
 
 const LEVELS: [&str; 4] = ["debug", "info", "warn", "error"];
-const SEGS: [&str; 10] = ["a", "aa", "b", "ab", "a_b", "A", "é", "z9", "aaa", "ba"];
+const SEGS: [&str; 13] = ["a", "aa", "b", "ab", "a_b", "A", "é", "z9", "aaa", "ba", "a1", "a0", "b2"];
 
 fn gen_level_text(rng: &mut Rng) -> String {
     const WORDS: [&str; 6] = ["information", "debug", "dbg", "error", "warning", "wrn"];
